@@ -9,7 +9,7 @@ from __future__ import annotations
 from .. import stmt_replay, tlaval
 
 def run(ctx):
-    ctx.rule = ("TLC enumerates every sequence of abstract lines (kind x comment flag) up to MaxLines over the mirror and "
+    ctx.rule = ("TLC enumerates every sequence of abstract lines (kind x comment flag) up to MaxLines over the mirror, scope (constants named alike in the request and response part, read by later constants and @print; up to 7 lines) and "
                 "full alphabets - every way a text can end is a last line; each state is rendered in 2-3 formatting "
                 "variants (LF/CRLF, blank runs, tabs, trailing blanks, literal spellings), read with pydsdl.read_namespace "
                 "and compared with the specification's result (fields, paddings, constants in order with names, types, "
@@ -22,9 +22,9 @@ def run(ctx):
     ctx.note("a line consisting only of blanks does not terminate a doc comment whereas an empty line does "
              "(WhitespaceOnlyLineDoesNotFlush); the structure of the model is unaffected (BlankVsEmptyStructure)")
     if ctx.tier == "quick":
-        plan = [("Stmt_mirror_quick.cfg", 2, True, 1), ("Stmt_all_quick.cfg", 2, True, 1)]
+        plan = [("Stmt_mirror_quick.cfg", 2, True, 1), ("Stmt_all_quick.cfg", 2, True, 1), ("Stmt_scope_thorough.cfg", 2, True, 3)]
     else:
-        plan = [("Stmt_mirror_thorough.cfg", 3, True, 1), ("Stmt_all_thorough.cfg", 3, True, 1)]
+        plan = [("Stmt_mirror_thorough.cfg", 3, True, 1), ("Stmt_all_thorough.cfg", 3, True, 1), ("Stmt_scope_thorough.cfg", 3, True, 1)]
     for cfg, nv, rt, sm in plan:
         results = stmt_replay.run_config(ctx, cfg, nv, rt, sm)
         if results:
